@@ -3,7 +3,8 @@ Dialects of the wire-level oracle `vh oracle c14namespace` (property C14).  No G
 the implementation side is the whole server over TCP, driven by harness/o_namespace.go.
 
   namespace-subs <del> <op>;<op>;…
-      ops (names hex, `~` = empty):  C:<name> D:<name> R:<old>:<new> S:<name> U:<name>      (IMAP commands)
+      ops (names hex, `~` = empty):  C:<name> D:<name> R:<old>:<new> S:<name> U:<name> A:<name>   (IMAP commands;
+                                     A = APPEND of one marker message)
                                      KC:<rid>:<name> KD:<rid> KN:<name> KR:<name>:<new>      (connector updates;
                                      KN / KR address the mailbox that currently has that name)
       -> <r1>,<r2>,… list=<…> lsub=<…> listmb=<…> lsubcode=<…> lsubref=<…>
@@ -13,6 +14,11 @@ the implementation side is the whole server over TCP, driven by harness/o_namesp
                          `mboxes` format of the getmatches dialect)
          lsubcode      = the same for LSUB (subscribed mailboxes, then deleted subscriptions)
          lsubref       = the reference subscription list: a name once; an existing mailbox decides
+
+  namespace-trace <del> <op>;<op>;…
+      -> one word per op: <r>!<list>!<lsub>!<status> — the reply class and the model's FULL namespace after
+         that op: LIST "" "*", LSUB "" "*" (as above) and STATUS (MESSAGES) of every selectable name of that
+         LIST as <name>=<count|x>;… (x = STATUS cannot resolve the name); `-` for an empty sequence
 
   judge-c14-nsops <del> <ops> => <r1>,<r2>,…
       the reference namespace rules (Spec/Namespace.lean: ValidName, Create, Delete, Rename) evaluated on
@@ -29,6 +35,7 @@ import GluonModel.Driver.DMatch
 import GluonModel.Driver.DNamespace
 
 -- DIALECT: namespace-subs runNamespaceSubs
+-- DIALECT: namespace-trace runNamespaceTrace
 -- DIALECT: judge-c14-nsops judgeC14NsOps
 -- DIALECT: judge-c14-wirelist judgeC14WireList
 namespace Gluon.Driver
@@ -45,6 +52,7 @@ def parseCmd (s : String) : Option NSS.Cmd :=
   | ["R", o, n] => do some (.rename (← Hex.decode o) (← Hex.decode n))
   | ["S", n] => (Hex.decode n).map .subscribe
   | ["U", n] => (Hex.decode n).map .unsubscribe
+  | ["A", n] => (Hex.decode n).map .append
   | ["KC", r, n] => do some (.kCreated (← hexStr r) (← Hex.decode n))
   | ["KD", r] => (hexStr r).map .kDeletedRid
   | ["KN", n] => (Hex.decode n).map .kDeletedName
@@ -143,7 +151,7 @@ def refOf (d : Char) (S : St) : NSS.Cmd → Option Must
 
 def kindOfCmd : NSS.Cmd → String
   | .create _ => "create" | .delete _ => "delete" | .rename .. => "rename" | .subscribe _ => "subscribe"
-  | .unsubscribe _ => "unsubscribe" | _ => "connector"
+  | .unsubscribe _ => "unsubscribe" | .append _ => "append" | _ => "connector"
 
 /-- walk the sequence; first deviation wins -/
 def judgeOps (d : Char) : St → Nat → List NSS.Cmd → List String → Nat → String
@@ -181,6 +189,28 @@ def runNamespaceSubs (args : List String) : String :=
       let list := showListing (getMatches (listInput S) [] ['*'] d false)
       let lsub := showListing (getMatches (lsubInput S) [] ['*'] d true)
       s!"{if rs.isEmpty then "-" else ",".intercalate rs} list={list} lsub={lsub} listmb={showMBoxes (listInput S)} lsubcode={showMBoxes (lsubInput S)} lsubref={showMBoxes (lsubRef S)}"
+    | _, _ => "bad-op"
+  | _ => "bad-op"
+
+/-- STATUS (MESSAGES) of every selectable name of the model's LIST "" "*" -/
+def NSubs.showStatus (d : Char) (S : St) (list : Matches) : String :=
+  let items := list.filterMap fun (n, a) => match a with
+    | Atts.noselect => none
+    | Atts.real _ => some s!"{Hex.encode n}={match statusOf d S n with | some k => toString k | none => "x"}"
+  if items.isEmpty then "-" else ";".intercalate (sortStr items)
+
+open NSubs in
+def runNamespaceTrace (args : List String) : String :=
+  match args with
+  | [del, ops] =>
+    match delim? del, parseCmds ops with
+    | some d, some cmds =>
+      let (_, ws) := cmds.foldl (fun (acc : St × List String) c =>
+        let (S', r) := step d acc.1 c
+        let list := getMatches (listInput S') [] ['*'] d false
+        let lsub := getMatches (lsubInput S') [] ['*'] d true
+        (S', acc.2 ++ [s!"{showRes r}!{showListing list}!{showListing lsub}!{showStatus d S' list}"])) (NSS.initial, [])
+      if ws.isEmpty then "-" else " ".intercalate ws
     | _, _ => "bad-op"
   | _ => "bad-op"
 
